@@ -149,6 +149,13 @@ ApVocab(i) ==
      root' = "{ // {additionalProperties: \"" \o T \o "\"}\n  \"a\": 1\n}"
   /\ typ' = "" /\ expect' = "unknown"
 
+\* the same with a key shortcut among the properties (the shortcut's values are additional properties too)
+ApVocabShortcut(i) ==
+  /\ stage = "start" /\ fam' = "apvocab-shortcut" /\ stage' = "done" /\ list' = <<>>
+  /\ LET T == IF i <= Len(TypeVocab) THEN TypeVocab[i] ELSE "mixed" IN
+     root' = "{ // {additionalProperties: \"" \o T \o "\"}\n  @t: 1,\n  \"a\": 1\n}"
+  /\ typ' = "\"key\"" /\ expect' = "unknown"
+
 \* ---- key shortcuts: the key of the example is the example of the key's type, whatever it is made of
 KeyStrings == <<"\"a\"", "\"a\\\"\"", "\"\\\"a\"", "\"\\\"\"", "\"a\\\\\"", "\"\\\\\"", "\"a b\"", "\"\\u0041\"", "\"a\\nb\"", "\"\"">>
 KeyShortcut(i, v) ==
@@ -287,7 +294,7 @@ Next == \/ StartEnum
         \/ \E r \in 1..Len(BigRules), b \in 1..Len(BigValues), neg \in BOOLEAN : BigRule(r, b, neg)
         \/ \E r \in 1..Len(RuleNamesAll), v \in 1..Len(RuleValuesAll), x \in 1..2 : RuleKinds(r, v, x)
         \/ \E n \in ScaledSizes, sh \in 1..Len(ScaledShapes) : Scaled(n, sh)
-        \/ \E i \in 1..(Len(TypeVocab) + 1) : ApVocab(i)
+        \/ \E i \in 1..(Len(TypeVocab) + 1) : ApVocab(i) \/ ApVocabShortcut(i)
         \/ \E i \in 1..Len(EchoTexts), k \in 1..Len(EchoSites) : Echo(i, k)
         \/ \E i \in 1..Len(KeyStrings), v \in {1, 4, 8} : KeyShortcut(i, v)
         \/ \E i \in 1..Len(KeyStrings), f \in BOOLEAN : KeyShortcutTwin(i, f)
